@@ -117,3 +117,43 @@ func H_C18_Admission() {
 		vCover("c18.allowed-claim")
 	}
 }
+
+// C18, the allowlist as applications build it: ParseCIDRs over a list that may contain malformed entries (its
+// documented contract: the entries that parse are returned together with the error). Every well-formed entry stays
+// enforced - a claim from outside all of them is not admitted - whether or not the caller looks at the error.
+func H_C18_ParsedAllowlist() {
+	pool := []string{"10.1.0.0/16", " 10.1.0.0/16 ", "fd00::/8", "10.20.0.0/33", "10.1.0.0", "", "300.1.0.0/16"}
+	valid := []bool{true, true, true, false, false, false, false}
+	n := 1 + vPick(3)
+	var in []string
+	want, bad := 0, 0
+	for i := 0; i < n; i++ {
+		k := vPick(len(pool))
+		in = append(in, pool[k])
+		if valid[k] {
+			want++
+		} else {
+			bad++
+		}
+	}
+	nets, err := ParseCIDRs(in)
+	vAssert(len(nets) == want, "c18.parse.every-wellformed-entry-kept")
+	vAssert((err != nil) == (bad > 0), "c18.parse.error-iff-malformed-entry")
+	conf := vBaseConfig()
+	conf.CIDRsAllowed = nets
+	f := vNewML(conf)
+	f.vAddSelf(3, nil)
+	outsider := []byte{10, 2, vU8(), vU8()}
+	a := alive{Incarnation: vU32(), Node: vPeerA, Addr: outsider, Port: 7946, Vsn: conf.BuildVsnArray()}
+	f.m.aliveNode(&a, nil, false)
+	if want > 0 {
+		vAssert(conf.IPMustBeChecked(), "c18.parse.allowlist-in-force")
+		vAssert(!f.vIsMember(vPeerA), "c18.parse.outsider-not-admitted")
+		vAssert(len(f.ev.log) == 0, "c18.parse.outsider-not-announced")
+		vCover("c18.parse.enforced")
+	} else {
+		vCover("c18.parse.none-valid")
+	}
+}
+
+func init() { vRegister("H_C18_ParsedAllowlist", H_C18_ParsedAllowlist) }
